@@ -125,6 +125,7 @@ def _configs():
     add("regex", lambda: T(A.RegexAnalyzer()))
     add("simple", lambda: T(A.SimpleAnalyzer()))
     add("simple_gaps", lambda: T(A.SimpleAnalyzer(r"[\s.,]+", gaps=True)))
+    add("simple_gaps_group", lambda: T(A.SimpleAnalyzer(r"(\s|[.,;])+", gaps=True)))
     add("standard", lambda: T(A.StandardAnalyzer()))
     add("standard_nostop", lambda: T(A.StandardAnalyzer(stoplist=None)))
     add("standard_minmax", lambda: T(A.StandardAnalyzer(minsize=1, maxsize=10)))
@@ -193,7 +194,7 @@ def _configs():
 
 # chains that emit exactly one token per source span: a marked span must
 # re-analyse to query terms only (strong form of R5)
-ONE_TO_ONE = ["id", "id_lower", "keyword", "keyword_lower_commas", "regex", "simple", "simple_gaps", "standard",
+ONE_TO_ONE = ["id", "id_lower", "keyword", "keyword_lower_commas", "regex", "simple", "simple_gaps", "simple_gaps_group", "standard",
               "standard_nostop", "standard_minmax", "standard_gaps", "standard_positions", "standard_freq",
               "stemming", "stemming_nocache", "lang_en", "lang_de", "lang_fr", "lang_es", "lang_ru", "lang_it",
               "text_lang_de", "charset_accent", "charset_lower_accent", "charset_tokenizer",
@@ -618,6 +619,21 @@ def check_doc(env, i, acc=None):
             cnt("r2_index_tokens_but_no_query_tokens")
             P.append((2, "no-query-tokens", "and",
                       "text %r: %d index-time tokens but no query-time tokens" % (text, len(itoks))))
+
+    # R2f: which token attributes the caller asks for (positions / chars; the
+    # index asks for them, a query does not) must not change the tokens' texts
+    ana = getattr(env.field, "analyzer", None)
+    if ana is not None:
+        for mode in ("index", "query"):
+            try:
+                plain = [tk.text for tk in ana(text, mode=mode)]
+                full = [tk.text for tk in ana(text, positions=True, chars=True, mode=mode)]
+                cnt("r2_flag_independence_checks")
+                if plain != full:
+                    P.append((2, "tokens-depend-on-requested-attributes", "analyze/" + mode,
+                              "text %r mode=%s: tokens %r without positions/chars, %r with them" % (text, mode, plain, full)))
+            except Exception as e:
+                P.append((0, exc_kind(e), "analyze-flags", "analyzer(%r, mode=%r) with/without positions raised %r" % (text, mode, e)))
 
     r2 = [p for p in P if p[0] == 2]
     if len(r2) > 1:
